@@ -729,7 +729,7 @@ def branch_and_bound(tableau, pts1, pts2):
                 return node.simplex.mapping
                 
                 
-        except:
+        except (UNSATException, AssertUpperException, AssertLowerException):
             continue
     
     # print("No integer solution!")
